@@ -1,5 +1,6 @@
 import GqlVerif.Base.Json
 import GqlVerif.Plan.Render
+import GqlVerif.Plan.RenderSpec
 namespace GqlVerif.Driver
 open GqlVerif GqlVerif.Render
 
@@ -40,12 +41,15 @@ def peJson : PE → Json
   | .name s => .str s
   | .idx i => Json.ofNat i
 
-/-- `c02.render {tree, data}` → `{errors:[[cls,[path…]]…], data, dataNull, malformed}` -/
+/-- `c02.render {tree, data}` → `{errors:[[cls,[path…]]…], data, dataNull, malformed, wf}`; `wf` = the tree has the shape the
+    type-safety theorems of Props.C02 are proved for (`wfRoot`) -/
 def c02render (args : Json) : Json :=
-  let out := resolve (nodeOfJson (args.getD "tree")) (args.getD "data")
+  let tree := nodeOfJson (args.getD "tree")
+  let out := resolve tree (args.getD "data")
   let errs := Json.arr (out.errors.map fun e => .arr [.str e.cls, .arr (e.path.map peJson)])
+  let wf := ("wf", Json.bool (wfRoot tree))
   match out.data with
-  | some v => .obj [("errors", errs), ("data", v), ("dataNull", .bool out.dataNull), ("malformed", .bool false)]
-  | none => .obj [("errors", errs), ("data", .null), ("dataNull", .bool false), ("malformed", .bool true)]
+  | some v => .obj [("errors", errs), ("data", v), ("dataNull", .bool out.dataNull), ("malformed", .bool false), wf]
+  | none => .obj [("errors", errs), ("data", .null), ("dataNull", .bool false), ("malformed", .bool true), wf]
 
 end GqlVerif.Driver
